@@ -405,7 +405,8 @@ pub fn shadow(cfg: &SPDCConfig) -> Value {
           if z.is_finite() && z != 0. && !(ls <= lp) {
             if let Some((p, table, g0, g1)) = nm_period_replay_traced(&signal, &pump, &cs0, z) {
               nm = fx_or_null(p);
-              if table.iter().all(|(x, _c)| x.is_finite()) {
+              // (NaN costs are recorded too: the solver treats them as +infinity since /repo d569966, and so does Model/NM1d.v)
+              if table.len() <= 4000 && table.iter().all(|(x, _)| x.is_finite()) {
                 orc.insert("nm_period_trace".into(), json!({"g0": fx(g0), "g1": fx(g1), "min": fx(f64::MIN_POSITIVE), "max": fx(*(cs0.length / M)),
                   "tol": fx(1e-12), "max_iter": 1000, "result": fx(p), "table": table.iter().map(|(x, c)| json!([fx(*x), fx(*c)])).collect::<Vec<_>>()}));
               }
